@@ -113,6 +113,7 @@ SARGS = {
     0: ((), {}), 1: ((1,), {}), 2: ((1.0,), {}), 3: ((True,), {}), 4: ((-1,), {}), 5: ((-2,), {}),
     6: ((), {"x": 1, "y": 2}), 7: ((), dict([("y", 2), ("x", 1)])), 8: ((-1,), {"x": 1}),
     9: (("boom",), {}),        # `__init__` raises ValueError for this one
+    10: (("clear",), {}),      # `__init__` of a TRUE singleton calls clear_true_singleton() (re-entrant global clear)
 }
 
 
@@ -137,6 +138,8 @@ def make_singleton_classes(log, tlog):
             self._eg_n = counter[0]
             counter[0] += 1
         tlog.append((self._eg_n, type(self).__name__, args, kwargs))
+        if args and args[0] == "clear":
+            singleton.clear_true_singleton()
 
     ts = []
     A = singleton.TrueSingleton("TA", (), {"__init__": tinit})
@@ -898,12 +901,10 @@ class Real:
             singleton.clear_true_singleton(None if toks[1] == "*" else self.TS[int(toks[1][1:])])
             return "ok"
         if op == "tsobs":
-            from edgegraph.structure import singleton
-            d = singleton.TrueSingleton._TrueSingleton__singleton_instances
-            cur = ["%d:%s" % (self.TS.index(c), getattr(o, "_eg_n", "?")) for c, o in list(d.items()) if c in self.TS]
+            # public observation only (the instance table is private): the log of `__init__` runs
             names = [c.__name__ for c in self.TS]
             inits = ["%d:%d:%d" % (n, names.index(cn), self.sargs_index(a, kw)) for (n, cn, a, kw) in self.ts_log]
-            return "ts inst=[%s] inits=[%s]" % (",".join(cur), ",".join(inits))
+            return "ts inits=[%s]" % ",".join(inits)
         if op in ("ssadd", "ssdrop", "sscheck", "ssall", "ssclear"):
             from edgegraph.structure import singleton
             if op == "ssadd":
@@ -924,26 +925,19 @@ class Real:
             r = singleton.check_semi_singleton_entry_exists(cls, *args, **kwargs)
             return "ok " + ("-" if r is None else self.inst_name(self.S, r, "S"))
         if op == "ssobs":
-            maps = []
-            for m, c in enumerate([self.SS[0], self.SS[3], self.SS[4]]):
-                d = type(c)._SemiSingleton__semisingleton_instance_map
-                ents = []
-                for key, o in d.items():
-                    owner, k = key
-                    ents.append("%d/%s:%s" % (self.SS.index(owner), self.key_class(m, k), self.inst_name(self.S, o, "S")[1:]))
-                maps.append("m%d=[%s]" % (m, ",".join(ents)))
+            # through the PUBLIC functions only (the instance maps are private)
+            from edgegraph.structure import singleton
+            alls, chks = [], []
+            for ci, c in enumerate(self.SS):
+                got = sorted(int(self.inst_name(self.S, o, "S")[1:]) for o in singleton.get_all_semi_singleton_instances(c))
+                alls.append("%d:%s" % (ci, "+".join(map(str, got))))
+            for ci, c in enumerate(self.SS):
+                for ai in sorted(SARGS):
+                    args, kwargs = SARGS[ai]
+                    o = singleton.check_semi_singleton_entry_exists(c, *args, **kwargs)
+                    if o is not None:
+                        chks.append("%d/%d:%s" % (ci, ai, self.inst_name(self.S, o, "S")[1:]))
             cls = ",".join(str(self.SS.index(type(o))) for o in self.S)
-            return "ss %s cls=[%s] inits=[%s]" % (" ".join(maps), cls, ",".join(self.inits_of(self.S, self.SS)))
+            return "ss all=[%s] chk=[%s] cls=[%s] inits=[%s]" % (",".join(alls), ",".join(chks), cls, ",".join(self.inits_of(self.S, self.SS)))
         return "bad-op " + " ".join(toks)
 
-    @staticmethod
-    def key_class(m, k):
-        """name the key stored in an instance map by the class of argument tuples it stands for"""
-        import json
-        if m == 2:
-            return str(k)
-        for i, cls in enumerate([0, 1, 1, 1, 2, 3, 4, 4, 5, 6]):
-            a, kw = SARGS[i]
-            if k == (a, json.dumps(kw, sort_keys=True)):
-                return str(cls)
-        return "?"
